@@ -204,6 +204,6 @@ theorem documented_forms_accepted :
     documentedForms.all (fun (it, verdict) => acceptItem it == verdict) = true := by
   decide
 
-example : documentedForms.length = 13 := by decide
+example : documentedForms.length = 15 := by decide
 
 end Derive.C19
